@@ -251,6 +251,27 @@ INVALID = [
     ("style_empty_with_colour", ["x"], {"style": "", "fg": "red"}),
     ("positional_empty_string", ["x", ""], {}),
     ("style_nonstr", ["x"], {"style": 1}),
+    # mis-typed names and values: containers, bytes, floats, booleans where a name or a colour is expected
+    ("nonstr_positional_tuple2", ["x", ("red", "bold")], {}),
+    ("nonstr_positional_tuple0", ["x", ()], {}),
+    ("nonstr_positional_tuple1", ["x", ("red",)], {}),
+    ("nonstr_positional_list", ["x", ["red"]], {}),
+    ("nonstr_positional_dict", ["x", {"fg": "red"}], {}),
+    ("nonstr_positional_bytes", ["x", b"red"], {}),
+    ("nonstr_positional_true", ["x", True], {}),
+    ("nonstr_positional_float", ["x", 1.5], {}),
+    ("style_tuple", ["x"], {"style": ("red", "bold")}),
+    ("style_list", ["x"], {"style": ["red"]}),
+    ("style_bytes", ["x"], {"style": b"red"}),
+    ("fg_tuple", ["x"], {"fg": ("red",)}),
+    ("fg_list", ["x"], {"fg": ["red"]}),
+    ("fg_dict", ["x"], {"fg": {}}),
+    ("fg_set", ["x"], {"fg": {"red"}}),
+    ("fg_bytes", ["x"], {"fg": b"red"}),
+    ("fg_float", ["x"], {"fg": 31.5}),
+    ("bg_list", ["x"], {"bg": ["blue"]}),
+    ("bg_dict", ["x"], {"bg": {"blue": 1}}),
+    ("bg_tuple", ["x"], {"bg": ("blue",)}),
 ]
 # wrong-case names: working like the lowered name, or ValueError - nothing else
 WRONG_CASE = [
